@@ -139,7 +139,7 @@ func (policyDoc *BlobDocument) GetGlobalTrustPolicy() (*BlobTrustPolicy, error) 
 func (t *BlobTrustPolicy) clone() *BlobTrustPolicy {
 	return &BlobTrustPolicy{
 		Name:                  t.Name,
-		SignatureVerification: t.SignatureVerification,
+		SignatureVerification: t.SignatureVerification.clone(),
 		TrustedIdentities:     append([]string(nil), t.TrustedIdentities...),
 		TrustStores:           append([]string(nil), t.TrustStores...),
 		GlobalPolicy:          t.GlobalPolicy,
